@@ -554,7 +554,39 @@ def parse_date(cx):
     return fn
 
 
+
+ACCESSORS = ['io.FCSData.acquisition_time', 'io.FCSData.acquisition_start_time', 'io.FCSData.acquisition_end_time', 'io.FCSData.time_step',
+             'io.FCSData.data_type', 'io.FCSData.infile', 'io.FCSData.text', 'io.FCSData.analysis', 'io.FCSData.channels']
+
+
+def accessors_store_nothing(cx):
+    """Reading a derived setting does not change the sample: no accessor stores through `self` (a second reading, a copy or
+    a pickle taken afterwards would otherwise differ from what the file said)."""
+    n = 0
+    for q in ACCESSORS:
+        try:
+            fn = Fn(cx, q)
+        except AnalysisError:
+            continue
+        n += 1
+        st = []
+        for s_ in fn.stmts((ast.Assign, ast.AugAssign, ast.Delete)):
+            tg = s_.targets if isinstance(s_, (ast.Assign, ast.Delete)) else [s_.target]
+            for t in tg:
+                for x in ast.walk(t):
+                    if isinstance(x, (ast.Attribute, ast.Subscript)) and isinstance(x.ctx, (ast.Store, ast.Del)):
+                        r = x
+                        while isinstance(r, (ast.Attribute, ast.Subscript)):
+                            r = r.value
+                        if isinstance(r, ast.Name) and r.id == 'self':
+                            st.append(s_)
+        fn.ob('TAGS', 'accessor %s stores nothing on the sample' % q.split('.')[-1], not st, st[0] if st else fn.ast,
+              detail='' if not st else 'store `%s`' % norm_stmt(st[0]), key='no-store|' + q)
+    cx.need(n >= 5, 'C17: accessors not found')
+
+
 def run(cx):
+    accessors_store_nothing(cx)
     n = 0
     _, k = optexc(cx, NEW, seeds=())
     n += k
